@@ -77,9 +77,29 @@ func (rb *BaseIRI) ResolveReference(ref *ParsedIRI) *ParsedIRI {
 	return rb.parsed.ResolveReference(ref)
 }
 
+// RelativizeIRI returns a reference which resolves against the base to exactly v. If there is no
+// such (shorter) reference, false is returned.
 func (rb *BaseIRI) RelativizeIRI(v string) (string, bool) {
-	if len(v) > len(rb.original) {
-		if rb.fragmentIndex == -1 && v[len(rb.original)] == '#' {
+	rel, ok := rb.relativizeIRI(v)
+	if !ok || strings.HasPrefix(rel, "//") {
+		// nothing in common, or what is left of v would name an authority
+		return "", false
+	}
+
+	if rb.rootIndex != -1 {
+		// only offer what resolves back; e.g. dot segments, "//", or a colon in the first segment do not
+		resolved, err := rb.parsed.Parse(rel)
+		if err != nil || resolved.String() != v {
+			return "", false
+		}
+	}
+
+	return rel, true
+}
+
+func (rb *BaseIRI) relativizeIRI(v string) (string, bool) {
+	if len(v) > len(rb.original) && rb.fragmentIndex == -1 && strings.HasPrefix(v, rb.original) {
+		if v[len(rb.original)] == '#' {
 			return v[len(rb.original):], true
 		} else if rb.queryIndex == -1 && v[len(rb.original)] == '?' {
 			return v[len(rb.original):], true
@@ -88,13 +108,14 @@ func (rb *BaseIRI) RelativizeIRI(v string) (string, bool) {
 
 	if rb.rootIndex == -1 {
 		return "", false
-	} else if len(v) < rb.rootIndex || rb.original[0:rb.rootIndex] != v[:rb.rootIndex] {
+	} else if !strings.HasPrefix(v, rb.original[0:min(rb.rootIndex, len(rb.original))]) {
+		// base without a path has no trailing slash
 		return "", false
 	} else if rb.original == v {
 		return "", true
 	}
 
-	if len(v) > rb.resourceIndex {
+	if len(v) > rb.resourceIndex && strings.HasPrefix(v, rb.original[0:rb.resourceIndex]) {
 		switch v[rb.resourceIndex] {
 		case '#':
 			// dropping query
@@ -105,7 +126,14 @@ func (rb *BaseIRI) RelativizeIRI(v string) (string, bool) {
 	}
 
 	if len(v) >= rb.directoryIndex && rb.original[0:rb.directoryIndex] == v[:rb.directoryIndex] {
-		return v[rb.directoryIndex:], true
+		rel := v[rb.directoryIndex:]
+
+		if len(rel) == 0 || rel[0] == '?' || rel[0] == '#' {
+			// an empty path would refer to the base resource, not its directory
+			rel = "./" + rel
+		}
+
+		return rel, true
 	}
 
 	return v[rb.rootIndex-1:], true
